@@ -8,7 +8,7 @@ from vf.model.rnd import urandoms
 
 PID = "C09"
 LEVEL = "exploration"
-BUDGET = {"quick": 4000, "thorough": 100000}
+BUDGET = {"quick": 8000, "thorough": 100000}
 HW = {  # vendor -> hardware variants that change the session wrapper
     "huawei": ["Huawei CE6870", "Huawei NE40E", "Huawei S5720"], "h3c": ["H3C S6850"], "optixtrans": ["Huawei OptiXtrans DC908"],
     "cisco": ["Cisco Catalyst 2960"], "nexus": ["Cisco Nexus 3132"], "iosxr": ["Cisco ASR 9001", "Cisco XRv"], "arista": ["Arista DCS-7368"],
